@@ -28,6 +28,7 @@ def check(repo, tier="quick"):
     res.rule("C28.b", "every CodecFeatures entry is stored on every normal path of a column; stored keys are declared entries")
     res.rule("C28.c", "each (field, parser) pair: enum fields use parse_int_enum with the declared enum; integers use parse_int_at_least (never bare int); flags use parse_bool; fields the validator rejects at zero have minimum >= 1")
     res.rule("C28.d", "picture_bytes is None exactly on the lossless arm; name uniqueness precedes insertion; leftover rows raise; defaulted fields exist in set_source_defaults' result")
+    res.rule("C28.f", "index safety of the CSV table reader (IndexError is outside the escape model): every out[i] with i an enumerate index is preceded, unconditionally in the same iteration, by `if i >= len(out): out.append(...)`, so len(out) > i by induction on i")
     res.rule("C28.e", "parse_quantization_matrix produces the level/orientation layout the decoder's quant_matrix reads")
 
     m, fn = repo.func("codec_features:read_codec_features_csv")
@@ -44,6 +45,8 @@ def check(repo, tier="quick"):
     res.floor("C28.c", 30)
     res.floor("C28.d", 4)
     res.floor("C28.e", 4)
+    rule_f(repo, res)
+    res.floor("C28.f", 1)
     res.assumptions = [
         "KeyError/IndexError from subscripts on plain local lists/dicts, and TypeError/AttributeError from ill-typed values, are not modelled by the escape analysis",
         "csvfile iteration itself (I/O errors of the caller's file object) is outside the function's contract",
@@ -423,3 +426,48 @@ def rule_e(repo, res, m):
     stop_to_value = any(dotted(h.type) == "StopIteration" and any(isinstance(x, ast.Raise) and isinstance(x.exc, ast.Call) and dotted(x.exc.func) == "ValueError" for x in h.body) for h in handlers)
     surplus = any(isinstance(n, ast.Try) and any(isinstance(x, ast.Raise) and isinstance(x.exc, ast.Call) and dotted(x.exc.func) == "ValueError" for x in n.body) and any(dotted(h.type) == "StopIteration" for h in n.handlers) for n in ast.walk(pq))
     res.check(stop_to_value and surplus, "C28.e", "values:count-enforced", where, "too few / too many values must both raise ValueError (converted to the documented error by pop)", by="StopIteration -> ValueError; surplus -> ValueError")
+
+
+def rule_f(repo, res):
+    """grow-before-index in read_dict_list_csv (and any other reader-side function of codec_features
+    that indexes a local list with an enumerate counter)"""
+    m = repo.mod("codec_features")
+    n_sites = 0
+    for fname, fn in m.funcs.items():
+        lists = set(dotted(a.targets[0]) for a in ast.walk(fn) if isinstance(a, ast.Assign) and isinstance(a.value, ast.List) and not a.value.elts and isinstance(a.targets[0], ast.Name))
+        for sub in ast.walk(fn):
+            if not (isinstance(sub, ast.Subscript) and isinstance(sub.value, ast.Name) and sub.value.id in lists and isinstance(sub.slice, ast.Name)):
+                continue
+            L, i = sub.value.id, sub.slice.id
+            # enclosing enumerate loop binding i as its counter
+            loop = None
+            p = getattr(sub, "_parent", None)
+            while p is not None and p is not fn:
+                if isinstance(p, ast.For) and isinstance(p.iter, ast.Call) and dotted(p.iter.func) == "enumerate" and isinstance(p.target, ast.Tuple) and dotted(p.target.elts[0]) == i and len(p.iter.args) == 1:
+                    loop = p
+                p = getattr(p, "_parent", None)
+            if loop is None:
+                continue
+            n_sites += 1
+            # the statement containing the subscript, at the loop's top level or nested
+            stmt_path = []
+            q = sub
+            while q is not loop:
+                if isinstance(q, ast.stmt):
+                    stmt_path.append(q)
+                q = q._parent
+            top = stmt_path[-1]
+            idx = loop.body.index(top)
+            grown = False
+            for prev in loop.body[:idx]:
+                if isinstance(prev, ast.If) and not prev.orelse and isinstance(prev.test, ast.Compare) and len(prev.test.ops) == 1:
+                    t = prev.test
+                    ok_test = (isinstance(t.ops[0], ast.GtE) and dotted(t.left) == i and norm(t.comparators[0]) == "len(%s)" % L) or (isinstance(t.ops[0], ast.LtE) and norm(t.left) == "len(%s)" % L and dotted(t.comparators[0]) == i) or (isinstance(t.ops[0], ast.Eq) and {norm(t.left), norm(t.comparators[0])} == {i, "len(%s)" % L})
+                    if ok_test and len(prev.body) == 1 and isinstance(prev.body[0], ast.Expr) and isinstance(prev.body[0].value, ast.Call) and norm(prev.body[0].value.func) == "%s.append" % L:
+                        grown = True
+            # nothing in the loop may skip an iteration's growth (continue/break before it) or shrink the list
+            skips = [x for s_ in loop.body[:idx] for x in ast.walk(s_) if isinstance(x, (ast.Continue, ast.Break))]
+            shrinks = [x for x in ast.walk(fn) if isinstance(x, ast.Call) and isinstance(x.func, ast.Attribute) and dotted(x.func.value) == L and x.func.attr in ("pop", "remove", "clear")] + [x for x in ast.walk(fn) if isinstance(x, ast.Delete)]
+            res.check(grown and not skips and not shrinks, "C28.f", "%s:%s[%s]" % (fname, L, i), "%s:%s" % (m.rel, fname), "`%s[%s]` is not preceded, unconditionally in every iteration of the enumerate loop, by `if %s >= len(%s): %s.append(...)`: a column whose earlier cells were skipped makes the index run past the end of the list and IndexError escapes the reader (it is not an InvalidCodecFeaturesError)" % (L, i, i, L, L), by="list grown to i + 1 at the top of every iteration")
+    if n_sites == 0:
+        raise AnalysisError("codec_features: no enumerate-indexed list access found (read_dict_list_csv changed shape)")
